@@ -137,6 +137,10 @@ func (c *Ctx) loaderCrashSweep() {
 		r := c.R.Fork(uint64(i) + 41_000_000)
 		s := gen.GenSchema(r, r.Intn(12))
 		cl := gen.SchemaClauses[i%len(gen.SchemaClauses)]
+		if i%2 == 1 {
+			// dangling references are what a loader dereferences: half of the budget goes to them
+			cl = []string{"undefined-type:union-member", "undefined-type:interface", "undefined-type:field", "undefined-type:argument", "undefined-type:input-field", "undefined-type:root", "directive-undefined"}[(i/2)%7]
+		}
 		f := gen.InjectSchemaFaultClause(r, s, cl)
 		add(f.Sources)
 		add(f.Schema.Render(r, 1+r.Intn(4)))
@@ -175,6 +179,7 @@ func checkC10(c *Ctx) {
 		pairs = append(pairs, [2]string{a.SchemaSDL, a.Doc})
 	}
 	c.valPropsSweep(pairs, isC10Sig)
+	c.validationHistories(pairs)
 	// across processes: the same requests through independent fresh worker pools (Go randomises map
 	// iteration per range statement and the hash seed per process)
 	reqs := make([]string, 0, len(pairs))
